@@ -6,6 +6,11 @@
  *     CC copy-construct a new handle        CA copy-assign into an empty handle      DD destroy a handle
  *     DA drop by assigning an empty handle  AS self-assignment                       AP assignment between two owners
  *     SU subscribe the next awaiter         RV resolve with a value                  BR break the promise (destroy it)
+ *     RE resolve with an exception (an exception object of the exception model, lib/rt_core.c; hand-picked orders only)
+ * Ways of creating the state (DRIVE_START): 1 shared_future(Fn(promise));  0 default construction + get_promise();
+ *     2 default construction + init_if_needed(), a copy is handed out and AWAITED, then get_promise()  (audit E/D2: the awaiter
+ *       accepted before get_promise() must be resumed exactly once too - open known finding C17-FINDING-await-before-get-promise);
+ *     3 default construction + init_if_needed() + operator<<(fn), fn starts an operation and keeps its promise  (audit E/D1).
  * (handles are interchangeable for the shared state, so each operation picks canonical slots: lowest owner / lowest empty /
  *  highest owner).  Fixed orders instead of a nondeterministic choice per step: with a symbolic order CBMC reasons at byte level
  *  about every pointer (1 step: ~1 min, 3 steps: > 16 GB); a fixed order is executed almost concretely (~2-20 s).  Even several
@@ -22,13 +27,22 @@
 #ifdef CV_HAS_drv_resolve
 #define NH 3
 #define NA 2
-enum { CC, CA, DD, DA, AS, AP, SU, RV, BR, END };
+enum { CC, CA, DD, DA, AS, AP, SU, RV, BR, END, RE };
 static const signed char SCRIPTS[][DRIVE_LEN + 1] = { DRIVE_SCRIPTS };
 #define N_SCRIPTS ((int)(sizeof(SCRIPTS) / sizeof(SCRIPTS[0])))
 /* environment functor of shared_future(Fn(promise)): keeps the promise (moves it out with the real promise(promise&&)) */
 PROMISE g_promise; int g_have_promise;
 #ifdef CV_HAS_env_promise_fn
 void env_promise_fn(PFN *fn, PROMISE *p) { drv_promise_move(&g_promise, p); g_have_promise = 1; }
+#endif
+#if defined(CV_HAS_env_future_fn) && defined(CV_HAS_drv_future_pending)
+/* environment functor of operator<<(Fn()->future): starts an operation whose promise it keeps; the pending future it returns is
+ * constructed in place (in the shared state) by the real future<int>() + get_promise() */
+void env_future_fn(FUT *ret, FFN *fn) { drv_future_pending(ret, &g_promise); g_have_promise = 1; }
+#endif
+#ifdef CV_HAS_drv_resolve_exc
+/* an exception object of the exception model: [16-byte header holding its type | object]; the harness owns one std::exception_ptr to it */
+static char c17_exc_type_marker; EXCPTR g_exc;
 #endif
 #ifdef CV_HAS_sp_suspend_now
 void sp_suspend_now(SPV *sp) { __CPROVER_assert(0, "drive: no coroutine handle is ever made ready here (all awaiters are function awaiters)"); }
@@ -45,12 +59,22 @@ static int highest(const int *holds, int want) { for (int i = NH - 1; i >= 0; i-
 static void run_script(const signed char *script, cv_i32 val)
 {
   SF h[NH]; CAW aw[NA]; int holds[NH]; int accepted[NA]; int n_sub = 0, promise_alive = 1;
-  int resolved = 0, with_value = 0, n_live = 0;
+  int resolved = 0, with_value = 0, with_exc = 0, n_live = 0;
+  unsigned ep_add0 = gh_ep_addref, ep_rel0 = gh_ep_release; cv_i8 *exc_blk = 0;
   unsigned allocs0 = gh_allocs, frees0 = gh_frees, made0 = gh_sp_made, disp0 = gh_sp_disposed, rel0 = gh_sp_released;
   for (int k = 0; k < NA; k++) { drv_awaiter_init(&aw[k]); accepted[k] = 0; }
   /* ---- creation: slot 0 gets the state, the other slots are default-constructed (empty) handles */
 #if DRIVE_START == 1          /* shared_future f(fn) where fn receives (and keeps) the promise */
   { PFN fn; g_have_promise = 0; drv_ctor_promise(&h[0], &fn); __CPROVER_assert(g_have_promise == 1, "drive: the user function received the promise"); }
+#elif DRIVE_START == 2        /* shared_future f; f.init_if_needed(); copy = f; <copy is awaited>; auto p = f.get_promise(); */
+  CAW early; int early_accepted;
+  { SF copy; drv_awaiter_init(&early);
+    drv_default(&h[0]); drv_init_if_needed(&h[0]); drv_copy_ctor(&copy, &h[0]);
+    early_accepted = drv_subscribe(&copy, &early) ? 1 : 0;          /* the consumer cannot know that the promise has not been taken yet */
+    drv_get_promise(&h[0], &g_promise); drv_dtor(&copy); }
+#elif DRIVE_START == 3        /* shared_future f; f.init_if_needed(); f << fn;   fn starts an operation and keeps its promise */
+  { FFN ffn; g_have_promise = 0; drv_default(&h[0]); drv_init_if_needed(&h[0]); drv_shift(&h[0], &ffn);
+    __CPROVER_assert(g_have_promise == 1, "drive: the user function was called and kept the promise"); }
 #else                         /* shared_future f; auto p = f.get_promise();   (late initialisation) */
   drv_default(&h[0]); drv_get_promise(&h[0], &g_promise);
 #endif
@@ -62,7 +86,7 @@ static void run_script(const signed char *script, cv_i32 val)
   /* ---- the script */
   for (int step = 0; step < DRIVE_LEN && script[step] != END; step++) {
     int op = script[step], lo = lowest(holds, 1), hi = highest(holds, 1), e = lowest(holds, 0);
-    __CPROVER_assert(op == RV || op == BR || lo >= 0 || op == CC || op == CA, "drive: script well-formed");
+    __CPROVER_assert(op == RV || op == BR || op == RE || lo >= 0 || op == CC || op == CA, "drive: script well-formed");
     if (op == CC)      { drv_dtor(&h[e]); drv_copy_ctor(&h[e], &h[lo]); holds[e] = 1; n_live++; }
     else if (op == CA) { drv_copy_assign(&h[e], &h[lo]); holds[e] = 1; n_live++; }
     else if (op == DD) { drv_dtor(&h[hi]); drv_default(&h[hi]); holds[hi] = 0; n_live--; }
@@ -73,6 +97,10 @@ static void run_script(const signed char *script, cv_i32 val)
                          __CPROVER_assert(accepted[n_sub] == (resolved ? 0 : 1), "drive: an awaiter is accepted exactly while the future is pending"); n_sub++; }
     else if (op == RV) { cv_i1 won = drv_resolve(&g_promise, val); resolved = 1; with_value = 1; __CPROVER_assert(won == 1, "drive: the only promise wins"); }
     else if (op == BR) { drv_drop_promise(&g_promise); promise_alive = 0; resolved = 1; }
+#ifdef CV_HAS_drv_resolve_exc
+    else if (op == RE) { exc_blk = malloc(CV_EXC_HDR + 8); __CPROVER_assume(exc_blk != 0); *(void **)exc_blk = (void *)&c17_exc_type_marker; g_exc._M_exception_object = exc_blk + CV_EXC_HDR;
+                         cv_i1 won = drv_resolve_exc(&g_promise, &g_exc); resolved = 1; with_exc = 1; __CPROVER_assert(won == 1, "drive: the only promise wins (exception)"); }
+#endif
     __CPROVER_assert(cv_exc_pending == 0, "drive: no exception escapes an operation");
     if (!resolved) {
       __CPROVER_assert(gh_frees == frees0 && gh_sp_disposed == disp0 && gh_sp_released == rel0, "drive: nothing is destroyed or freed while the future is pending (even with no handle left)");
@@ -81,7 +109,7 @@ static void run_script(const signed char *script, cv_i32 val)
       __CPROVER_assert((n_live == 0) == (gh_sp_released == rel0 + 1) && gh_sp_released <= rel0 + 1, "drive: after resolution the state is released exactly when the last handle has gone");
   }
   /* ---- every script contains its resolution (the harness stays free of nondeterministic choices: see header) */
-  __CPROVER_assert(resolved, "drive: script well-formed (contains RV or BR)");
+  __CPROVER_assert(resolved, "drive: script well-formed (contains RV, RE or BR)");
   __CPROVER_assert(cv_exc_pending == 0, "drive: no exception from resolution");
   for (int k = 0; k < NA; k++) __CPROVER_assert(aw[k].hits == (accepted[k] ? 1 : 0), "drive: every accepted awaiter has been resumed exactly once");
   __CPROVER_assert((n_live == 0) == (gh_sp_released == rel0 + 1), "drive: after resolution the state is gone iff no handle is left");
@@ -90,7 +118,14 @@ static void run_script(const signed char *script, cv_i32 val)
     for (int i = 0; i < NH; i++) if (holds[i]) {
       __CPROVER_assert(drv_ready(&h[i]), "drive: every copy is ready after resolution");
       if (with_value) { cv_i32 *v = drv_value(&h[i]); __CPROVER_assert(cv_exc_pending == 0 && *v == val, "drive: every copy reads the resolved value");
-                        if (first == 0) first = v; __CPROVER_assert(v == first, "drive: all copies read the same value object"); } } }
+                        if (first == 0) first = v; __CPROVER_assert(v == first, "drive: all copies read the same value object"); }
+#ifdef CV_HAS_drv_resolve_exc
+      if (with_exc) { drv_value(&h[i]);
+                      __CPROVER_assert(cv_exc_pending == 1 && cv_exc_obj == (void *)g_exc._M_exception_object && cv_exc_tinfo == (void *)&c17_exc_type_marker, "drive: every copy rethrows the same stored exception object");
+                      cv_exc_pending = 0;      /* caught by the reader */
+                      __CPROVER_assert((gh_ep_addref - ep_add0) - (gh_ep_release - ep_rel0) == 1, "drive: reading gives back the reference it took; the shared state keeps exactly one reference to the exception"); }
+#endif
+    } }
   /* ---- destroy every handle */
   for (int i = 0; i < NH; i++) { drv_dtor(&h[i]); n_live -= holds[i]; holds[i] = 0; }
   __CPROVER_assert(n_live == 0, "drive: all handles dropped");
@@ -98,6 +133,11 @@ static void run_script(const signed char *script, cv_i32 val)
   __CPROVER_assert(gh_sp_disposed == disp0 + 1 && gh_sp_released == rel0 + 1, "drive: the shared state is destroyed exactly once and released exactly once");
   __CPROVER_assert(gh_allocs - allocs0 == gh_frees - frees0, "drive: no leak (allocations == frees)");
   for (int k = 0; k < NA; k++) __CPROVER_assert(aw[k].hits == (accepted[k] ? 1 : 0), "drive: no awaiter is resumed a second time");
+  __CPROVER_assert(gh_ep_addref - ep_add0 == gh_ep_release - ep_rel0, "drive: the stored exception_ptr has been released exactly once (every reference taken on the exception object was given back; the harness keeps its own)");
+#if DRIVE_START == 2
+  __CPROVER_assert(early.hits == early_accepted, "drive: C17-FINDING-await-before-get-promise: the awaiter accepted through a copy BEFORE get_promise() has been resumed exactly once");
+#endif
+  if (exc_blk != 0) free(exc_blk);                        /* the harness lets go of its own reference: the exception object dies */
   gh_scripts_done++;
 }
 void h_drive(void)
